@@ -156,14 +156,25 @@ func genSGR(t *rapid.T) oracle.Piece {
 			base := rapid.SampledFrom([]int{38, 48}).Draw(t, "base")
 			c := rapid.SampledFrom([]int{0, 1, 7, 8, 15, 16, 100, 231, 255}).Draw(t, "c256")
 			codes = append(codes, base, 5, c)
-			parts = append(parts, fmt.Sprint(base), "5", fmt.Sprint(c))
+			if rapid.IntRange(0, 3).Draw(t, "colonForm") == 0 {
+				parts = append(parts, fmt.Sprintf("%d:5:%d", base, c)) // sub-parameters separated by colons (ITU T.416)
+			} else {
+				parts = append(parts, fmt.Sprint(base), "5", fmt.Sprint(c))
+			}
 		case 1: // true colour
 			base := rapid.SampledFrom([]int{38, 48}).Draw(t, "base")
 			r := rapid.SampledFrom([]int{0, 1, 127, 255}).Draw(t, "r")
 			g := rapid.SampledFrom([]int{0, 2, 128, 255}).Draw(t, "g")
 			b := rapid.SampledFrom([]int{0, 3, 129, 255}).Draw(t, "b")
 			codes = append(codes, base, 2, r, g, b)
-			parts = append(parts, fmt.Sprint(base), "2", fmt.Sprint(r), fmt.Sprint(g), fmt.Sprint(b))
+			switch rapid.IntRange(0, 5).Draw(t, "colonForm") {
+			case 0:
+				parts = append(parts, fmt.Sprintf("%d:2:%d:%d:%d", base, r, g, b))
+			case 1: // the full ITU form has a colour space identifier, usually left empty
+				parts = append(parts, fmt.Sprintf("%d:2::%d:%d:%d", base, r, g, b))
+			default:
+				parts = append(parts, fmt.Sprint(base), "2", fmt.Sprint(r), fmt.Sprint(g), fmt.Sprint(b))
+			}
 		default:
 			c := rapid.SampledFrom(sgrSimple).Draw(t, "code")
 			codes = append(codes, c)
